@@ -139,6 +139,12 @@ SNIPPETS = [
     "(lambda x: (np.add(x, 1, x), x)[1])(np.array([1.0, 2.0]))", "np.multiply(a, b, dtype=None)",
     "np.round(np.array([0.5, 1.5, 2.5, -0.5, -1.5, 2.4, 2.6, np.nan]))", "np.round(np.array([1.0004, 0.2496, 1.0005, -2.0015, 7.0]), 3)",
     "np.around(np.array([12.345, 12.355]), 1)", "np.rint(np.array([0.5, 1.5, -2.5, 3.2]))", "np.round(am, 1)",
+    "ma.getmaskarray(ma.empty_like(bm, dtype='uint8'))", "ma.getmaskarray(np.empty_like(bm))", "np.full_like(bm, 7.0)",
+    "(lambda r: (r.fill(9), r)[1])(ma.empty_like(bm, dtype='uint8'))", "ma.getmaskarray(ma.empty_like(a))",
+    "np.copy(bm)", "ma.getmaskarray(np.copy(bm))", "ma.copy(bm)",
+    "np.extract(a > 1, a)", "np.extract(~np.isnan(a), b)", "ma.true_divide(np.array([1.0, 2.0, 3.0]), np.array([2.0, 0.0, 4.0]))",
+    "ma.true_divide(am, bm)", "ma.divide(ma.masked_invalid(a), 2.0)", "np.zeros(3, dtype=np.intp)",
+    "(lambda x: (x.__setitem__(np.where(a > 1)[0], np.array([7.0, 8.0])), x)[1])(np.zeros(5))",
     "np.ravel(np.array([[1.0, 2.0], [3.0, 4.0]]))", "np.union1d(np.flatnonzero(a > 1), np.flatnonzero(b > 1))",
     "np.union1d(np.array([3, 1]), np.array([2, 1]))", "(lambda x: (np.put(x, np.array([2, 0]), np.array([7.0, 8.0])), x)[1])(np.zeros(4))",
     "(lambda x: (np.put(x, [1, 3, 0], [5]), x)[1])(np.full((4,), 2, dtype='uint8'))",
